@@ -20,7 +20,7 @@ def handle (line : String) : Out :=
     match parseNat? inq, parseInt? mint, parseNat? k, parseQs qs with
     | some inq, some mint, some k, some outs =>
       if !(["mary", "alonzo", "babbage", "conway", "dijkstra"].contains era) then badOp
-      else if enc ≠ "m" && enc ≠ "b" then badOp
+      else if enc ≠ "m" && enc ≠ "b" && enc ≠ "s" then badOp
       else if k ≠ outs.length || k = 0 then badOp
       else if (inq : Int) > maxU64 then badOp
       else
